@@ -25,7 +25,12 @@ MANIFEST = dict(
          "initializer_needs_value (nothing but an optional ';' is left; '=' needs a value), documented_forms_accepted. (b) "
          "generate.VerifyAttrs: verifyAttrs_no_crash for all attribute maps (absent/bare/text/int/real/list/false) and "
          "declaration shapes, illegal_* (each documented illegal combination is a reject whose id names the attribute), "
-         "default_* (documented intent/value/deref/rank defaults). (c) ast.py YAML structure validation (shape layer of "
+         "default_* (documented intent/value/deref/rank defaults); functions with a fortran_generic list (checkFcnG: every entry's "
+         "arguments through check_arg_attrs, then check_implied_attrs against the entry's own names): verifyAttrsGeneric_no_crash, "
+         "generic_every_entry_checked / generic_entry_every_arg_checked (a successful run validated every entry at every position and "
+         "every argument of it), accepted_has_no_illegal_name (no undocumented attribute name survives on an argument or, at any "
+         "depth, on a parameter of a function-pointer argument), fcn_generic_entry_rejected (one bad entry anywhere in the list is a "
+         "diagnostic). (c) ast.py YAML structure validation (shape layer of "
          "create_library_from_dictionary, clean_dictionary, add_declarations, LibraryNode language/format checks): "
          "yamlShape_no_crash for all value trees, shape_* (each shape error is a reject naming the field). All three models are "
          "tied to the code on every run through the compiled Lean driver (ops parse/parsestr/lex, vattrs, yshape): outcome "
@@ -33,7 +38,11 @@ MANIFEST = dict(
          "silent acceptance (unbalanced text, '=' without value, text after the expression of dimension/implied, documented-illegal "
          "attribute combinations on boundary values), rejected documented attribute values (every spelling lower/UPPER/Capitalised/"
          "mixed of the case-insensitive intent value on every host, the documented deref/owner values, documented dimension/implied "
-         "forms: must be accepted) "
+         "forms: must be accepted), "
+         "per-position rules (an undocumented attribute name on a top-level argument, on function-pointer parameters at depth 1 "
+         "and 2, on an argument of the k-th of n fortran_generic entries, n = 1..3, on a function-pointer parameter inside an entry: "
+         "must be rejected; ten documented per-argument rules placed in the k-th of n entries: must be rejected; all-good lists, the "
+         "documented GenericReal example and explicit intent(in) in every letter case on by-value arguments: must be accepted) "
          "and rejected documented declarations (docs/*.rst, regression/input/*.yaml), run the command line on non-mapping YAML "
          "documents and the whole pipeline (parse, verify, generate, write wrappers) on a family of declaration shapes "
          "(unnamed / abstract arguments, function pointers, arrays, defaults).",
@@ -92,6 +101,13 @@ THEOREMS = {
         "Shroud.Attrs.default_value",
         "Shroud.Attrs.default_deref",
         "Shroud.Attrs.default_rank",
+        "Shroud.Attrs.verifyAttrsGeneric_no_crash",
+        "Shroud.Attrs.accepted_has_no_illegal_name",
+        "Shroud.Attrs.generic_every_entry_checked",
+        "Shroud.Attrs.generic_entry_every_arg_checked",
+        "Shroud.Attrs.generic_illegal_name_rejected",
+        "Shroud.Attrs.generic_bad_implied_rejected",
+        "Shroud.Attrs.fcn_generic_entry_rejected",
     ]
 }
 
@@ -194,6 +210,7 @@ def run(ctx):
                        "shaped, a few non-ASCII); all attribute names x value shapes on functions/arguments/variables + boundary "
                        "values of rank x conflicting attributes; must-accept family (case variants of intent, documented deref/owner/dimension/"
                        "implied forms) and must-reject family (trailing text in dimension/implied, intent out on values); malformed YAML shapes; non-mapping YAML documents; "
+                       "position family (rule x position: top-level / fptr parameter depth 1-2 / entry k of n of fortran_generic); "
                        "non-trivial = distinct accepted structures, distinct diagnostics, distinct (attribute, shape, outcome) triples")
     ctx.assumptions += [
         "theorems are about the Lean model; the model is validated against declast.py on generated inputs only",
